@@ -254,4 +254,30 @@ def rule_nosticky(ctx: Ctx, rule: str = "C04.nosticky"):
             rep.ok(rule, f.loc(), f"{eng.name}.{nm} writes no engine attribute besides the queue", written=sorted(written))
 
 
-RULES = [rule_release, rule_clear, rule_noswallow, rule_state, rule_nosticky]
+LAZY_APPLIERS = {"map", "filter", "starmap", "takewhile", "dropwhile", "filterfalse", "accumulate", "reduce"}
+
+
+def rule_stopiteration_safe(ctx: Ctx, rule: str = "C04.noswallow"):
+    """Whatever a callback raises reaches the caller - also `StopIteration` (a guard calling next() on an exhausted iterator).
+    A callback invoked *by* `map()`/`filter()`/`itertools` inside the executors loses it: the exception leaves `map.__next__`
+    and the consumer (`all`, `any`, `list`, a for loop) takes it for the end of the iteration - the guard counts as passed, the
+    action as done.  Explicit loops and comprehensions do not have this hole (PEP 479 turns it into RuntimeError there)."""
+    from .c07 import _kwargs_chain
+
+    rep = ctx.rep
+    fns = _kwargs_chain(ctx)
+    n = 0
+    for fn in sorted(fns, key=lambda f: f.key):
+        if isinstance(fn.node, ast.Lambda):
+            continue
+        for nd in ast.walk(fn.node):
+            if isinstance(nd, ast.Call):
+                nm = show(nd.func).split(".")[-1]
+                if nm in LAZY_APPLIERS and nd.args:
+                    n += 1
+                    rep.violation(rule, fn.loc(nd), f"{fn.qualname} lets `{nm}()` call the callbacks: a StopIteration raised by one of them ends the "
+                                  "iteration silently instead of reaching the caller", fn.key, norm_stmt(nd))
+    rep.ok(rule, "package", "no executor/wrapper function applies callbacks through map()/filter()/itertools", functions=len(fns), sites=n)
+
+
+RULES = [rule_release, rule_clear, rule_noswallow, rule_state, rule_nosticky, rule_stopiteration_safe]
